@@ -192,7 +192,7 @@ func makeConditionalReturnContent(
 		}
 
 		dargT :=
-			GetValueT(frame, class, methodT.GetMethodName(), dargCopy, methodT.IsStatic)
+			GetValueT(frame, class, methodT.ArgLookupName(), dargCopy, methodT.IsStatic)
 
 		if dargT.IsUnionType() {
 			for idx, variant := range dargT.GetVariants() {
@@ -246,7 +246,7 @@ func makeConditionalReturnContent(
 					GetValueT(
 						frame,
 						class,
-						methodT.GetMethodName(),
+						methodT.ArgLookupName(),
 						dargCopy,
 						methodT.IsStatic,
 					)
@@ -289,7 +289,7 @@ func MakeSignatureContent(
 			}
 
 			dargT :=
-				GetValueT(frame, class, methodT.GetMethodName(), darg, methodT.IsStatic)
+				GetValueT(frame, class, methodT.ArgLookupName(), darg, methodT.IsStatic)
 
 			// *a or **a
 			if IsAsteriskPrefix(darg) {
